@@ -56,6 +56,8 @@ Return ==
   /\ Is("Return")
   /\ Step([s EXCEPT !.viol = @
        \cup Flag(~Ev.hang, "x_operation_hung")
+       \* what the operation left in the background ends by itself although the caller's context lives on
+       \cup Flag("bgleft" \in DOMAIN Ev => Len(Ev.bgleft) = 0, "x_background_work_left_after_return")
        \* (b) the WAN result when the WAN lookup succeeds, else the LAN result
        \cup Flag((s.c.op = "getvalue" /\ s.wanGot # {}) => (Ev.err = "" /\ Ev.value \in s.wanGot), "b_wan_value_not_preferred")
        \cup Flag((s.c.op = "getvalue" /\ s.wanGot = {} /\ s.lanGot # {}) => (Ev.err = "" /\ Ev.value \in s.lanGot), "b_lan_value_not_returned")
